@@ -377,7 +377,7 @@ def run(rep, tier):
                 uses_initial = any('kXMLCharInitial' in o or 'parentInit' in o for o in ops)
                 uses_table = any(l[0] == 'rel' and l[1] == 'completionBools' for l in literals(a['ctx'].guards))
                 if canon_term(a['what']).startswith('in_entry_set_['):
-                    rep.check(uses_table and not uses_initial, 'R18.4', 'writeCompleteEntrySet|DEFAULT|default child test', locstr(a['node']),
+                    rep.check(uses_table and not uses_initial, 'R18.4', 'ChartToVHDL|DEFAULT|default child test', locstr(a['node']),
                               'which child is entered by default is decided by %s' % ('the completionBools table' if uses_table and not uses_initial else 'the text of the `initial` attribute / first child in document order, not by the completionBools table: <initial> elements, multi-state and deep initial targets are wrong'))
 
     # ---- R18.3 equations
